@@ -149,6 +149,9 @@ def monitor_user(case, r):
     if failed:
         if not isinstance(r.exc, uberjob.CallError):
             v.append(("C06", f"a call failed but run raised {r.exc!r}"))
+            if r.exc is None and set(started) != (needed & calls):
+                v.append(("C04", f"run returned normally (as a success) having executed {sorted(set(started))}, the output needs "
+                          f"{sorted(needed & calls)} (calls {sorted(failed)} had raised)"))
         else:
             who = [i for i, n in r.N.items() if n is r.exc.call]
             if not who or who[0] not in failed:
